@@ -80,13 +80,14 @@ Definition assertion_conditions (v : vcfg) (t : keytable) (t0 t1 : Z) (d : sigde
 Definition is_private_key_jwt (cl : clienttable) (id : string) : bool :=
   match lookup_client cl id with Some m => String.eqb m private_key_jwt | None => false end.
 
-(* an assertion as the client helpers build it (iss = sub = client, aud has the issuer,
-   iat = build time, exp at most 1 h later), presented right after it was built, for a
-   registered key, to a verifier with non-negative offset and max age 0 or >= 1 h *)
+(* an assertion produced by one of the library's client helpers configured for this
+   provider's issuer (what it writes into iss, sub and aud is the helper's business and
+   NOT a premise here), with iat = build time and exp at most 1 h later, presented right
+   after it was built, for a registered key, to a verifier with non-negative offset and
+   max age 0 or >= 1 h *)
 Definition must_accept (e : entry) (v : vcfg) (t : keytable) (cl : clienttable) (t0 t1 : Z)
     (d : sigdesc) (c : claims) : bool :=
   sd_wf d && signed_by_named_client t (c_iss c) d
-  && String.eqb (c_sub c) (c_iss c) && string_in (v_issuer v) (c_aud c)
   && Z.leb 0 (v_offset v) && (Z.eqb (v_max_age v) 0 || Z.leb (3600 * second) (v_max_age v))
   && Z.ltb 0 (c_iat c) && Z.leb (c_iat c * second) t0 && Z.leb 0 t0
   && Z.ltb (t1 + v_offset v) (c_exp c * second) && Z.leb (c_exp c) (c_iat c + 3600)
